@@ -1,6 +1,6 @@
 #!/bin/bash
 # tools/run_all.sh [tier] [parallelism] : run every registered check against /repo, print one line each
 TIER=${1:-quick}; P=${2:-5}
-cd /verif
+cd "$(dirname "$(readlink -f "$0")")/.."
 for i in 01 02 03 04 05 06 07 08 09 10 11 12 13 14 15 16 17 18 19 20; do echo C$i; done | \
-  xargs -P $P -I{} bash -c "./check {} --tier $TIER > /tmp/runall_{}.log 2>&1; echo {} rc=\$? \$(grep -E 'held|violated|HARNESS' /tmp/runall_{}.log | tail -1)"
+  xargs -P $P -I{} bash -c "./check {} --tier $TIER > /tmp/runall_${TIER}_{}.log 2>&1; echo {} rc=\$? \$(grep -E 'held|violated|HARNESS' /tmp/runall_${TIER}_{}.log | tail -1)"
